@@ -43,10 +43,15 @@ pub struct TestServer {
 impl TestServer {
     /// Starts listeners. `tweak` may adjust the configuration first.
     pub fn start(dir: &Path, tweak: impl FnOnce(&mut Config)) -> Result<Self, String> {
-        let mut last_err = String::new();
         let mut config = base_config(dir);
         config.refresh = Duration::from_secs(600);
         tweak(&mut config);
+        Self::start_with_config(config, false)
+    }
+
+    /// Starts listeners for a complete configuration; `update` enables the collector.
+    pub fn start_with_config(mut config: Config, update: bool) -> Result<Self, String> {
+        let mut last_err = String::new();
         for _ in 0..5 {
             let http_port = free_port();
             let http_addr: SocketAddr = format!("127.0.0.1:{http_port}").parse().unwrap();
@@ -69,7 +74,8 @@ impl TestServer {
             rt.spawn(rtr);
             rt.spawn(http);
             drop(_guard);
-            let engine = Engine::new(&config, false).map_err(|_| "Engine::new failed".to_string())?;
+            let mut engine = Engine::new(&config, update).map_err(|_| "Engine::new failed".to_string())?;
+            engine.ignite().map_err(|_| "Engine::ignite failed".to_string())?;
             return Ok(TestServer {
                 rt, history, notify, config, engine, http_addr, rtr_addr, rtr_metrics,
                 exceptions: LocalExceptions::empty(),
